@@ -14,5 +14,6 @@ CONSTANTS
   DefaultsUntouched = TRUE
   OrderedIteration = TRUE
   SummaryStateless = FALSE
+  WeightsRebuilt = TRUE
 INVARIANT Functional
 CHECK_DEADLOCK FALSE
